@@ -88,6 +88,17 @@ CHECKS.update({
                "TLA+ extension semantics model-checked with TLC against their desugared form; each alias spelling evaluated by the implementation", "5 (C13)"),
 })
 
+CHECKS.update({
+    "C07": _mc("the typing judgement (spec/Typing.tla, MC_Typing.tla)",
+               "every well-/ill-typed construct at every position of a logical expression, selector defects, integer bounds under default and narrowed limits; type soundness of accepted programs",
+               "Trusted: independent transcription of RFC 9535 2.4.3 and the 2.1-2.5 grammar side conditions; renderer.",
+               "TLA+ typing rules evaluated by TLC over enumerated programs (with type soundness checked); verdict compared with what compile() accepts in every spelling", "5 (C07)"),
+    "C10": _mc("the program universes of MC_PathEval / MC_Filter / MC_Ext / MC_Compound with the specification's semantics",
+               "every exported program in every spelling: compile, print, recompile, print; recompiled query evaluated against the semantics of the original AST",
+               "Trusted: the specification's semantics of the original program; documents of each universe stand in for 'every document'.",
+               "TLC-exported programs round-tripped through str()/compile() and the recompiled query compared with the TLA+ semantics of the original", "5 (C10)"),
+})
+
 NOT_YET = {}
 
 
